@@ -173,7 +173,14 @@ def run_case(case) -> Outcome:
     for ls in case["layout_seeds"][:n]:
         lay = render.Layout(random.Random(ls))
         lsrc, linc, _ = render.render(ir, lay)
-        res = driver.assemble_mem(lsrc, rom=rom, files={**files, **linc})
+        fn, decoys = "main.s", {}
+        if ls % 4 == 0:
+            # the main source is known under a name with a directory part, and files with the names of the included / read
+            # files exist in that directory too (other content): paths are relative to the working directory
+            fn = "proj/src/main.s"
+            decoys = {"proj/src/" + k: (".db 0xde, 0xad\n" if k.endswith(".s") else {"hex": "deadbeef99"}) for k in list(files) + list(linc)}
+            out.labels.append("source-in-subdirectory")
+        res = driver.assemble_mem(lsrc, rom=rom, files={**files, **linc, **decoys}, filename=fn)
         out.evals += 1
         for k in lay.used:
             classes_all[k] = classes_all.get(k, 0) + 1
